@@ -257,7 +257,11 @@ func routeSelectionSet(ctx *PlanningContext, parentType, parentLocation string, 
 				}
 			}
 
-			if ss, err := filterSelectionSetByLoc(ctx, otherSelectionSet, common.InternalServiceName, parentType); err == nil && len(ss) > 0 {
+			ss, err := filterSelectionSetByLoc(ctx, otherSelectionSet, common.InternalServiceName, parentType)
+			if err != nil {
+				return nil, err
+			}
+			if len(ss) > 0 {
 				result[common.InternalServiceName] = ss
 			}
 		}
